@@ -15,6 +15,7 @@ mod c15;
 mod c16;
 mod c17;
 mod c18;
+mod dbg;
 mod dump;
 mod progs;
 mod util;
@@ -23,6 +24,7 @@ use std::path::PathBuf;
 
 fn main() {
     let args: Vec<String> = std::env::args().collect();
+    if args.len() == 2 && args[1] == "dbg" { dbg::run(); return; }
     if args.len() < 6 || args[1] != "emit" {
         eprintln!("usage: p2h emit <prop> <seed> <quick|thorough> <outdir>");
         std::process::exit(2);
